@@ -6,7 +6,7 @@ import PPModel
 open PP
 
 def handlers : List (List Sexp → Option Sexp) :=
-  [ Driver.lineColHandle ]
+  [ Driver.lineColHandle, Driver.prHandle ]
 
 def dispatch (line : String) : String :=
   match Sexp.parseAll line with
